@@ -852,7 +852,7 @@ func c05bWriter(c *Ctx, r *Report) {
 		r.Undecided(clause, "R13 AFFINE", f.Name, c.pos(f.Decl.Pos()), "no local defined as len(G.VtSet)")
 		return
 	}
-	pc := &pathCtx{info: info, subst: map[types.Object]string{ntObj: "NT"}}
+	pc := &pathCtx{info: info, defs: defs, root: f.Decl.Body, subst: map[types.Object]string{ntObj: "NT"}}
 	actionWidthOK, gotoColOK := false, false
 	var gotoIdx string
 	ast.Inspect(f.Decl.Body, func(n ast.Node) bool {
@@ -1296,6 +1296,64 @@ func c05c(c *Ctx, r *Report) {
 		return true
 	})
 	if !scanFound {
+		// flag form: `for fits := false; !fits; { fits = true; for _, j := range cols { if entry[off+j] { off++; fits = false; break } } }`
+		ast.Inspect(f.Decl.Body, func(n ast.Node) bool {
+			outer, ok := n.(*ast.ForStmt)
+			if !ok || outer.Cond == nil || outer.Post != nil || len(outer.Body.List) != 2 {
+				return true
+			}
+			un, ok := unparen(outer.Cond).(*ast.UnaryExpr)
+			if !ok || un.Op != token.NOT {
+				return true
+			}
+			flag := identObj(info, un.X)
+			set, ok := outer.Body.List[0].(*ast.AssignStmt)
+			if !ok || flag == nil || len(set.Lhs) != 1 || identObj(info, set.Lhs[0]) != flag {
+				return true
+			}
+			if cv := constOf(info, set.Rhs[0]); cv == nil || cv.Kind() != constant.Bool || !constant.BoolVal(cv) {
+				return true
+			}
+			inner, ok := outer.Body.List[1].(*ast.RangeStmt)
+			if !ok {
+				return true
+			}
+			for _, s := range inner.Body.List {
+				is, ok := s.(*ast.IfStmt)
+				if !ok {
+					continue
+				}
+				ix, ok := unparen(is.Cond).(*ast.IndexExpr)
+				if !ok || identObj(info, ix.X) != entry {
+					continue
+				}
+				scanFound = true
+				scanPos = is.Pos()
+				bump, clear, leave := false, false, false
+				for k, bs := range is.Body.List {
+					switch x := bs.(type) {
+					case *ast.IncDecStmt:
+						if bx, ok := x.X.(*ast.IndexExpr); ok && x.Tok == token.INC && identObj(info, bx.X) == roles["OFF"] {
+							bump = true
+						}
+					case *ast.AssignStmt:
+						if len(x.Lhs) == 1 && identObj(info, x.Lhs[0]) == flag {
+							if cv := constOf(info, x.Rhs[0]); cv != nil && cv.Kind() == constant.Bool && !constant.BoolVal(cv) {
+								clear = true
+							}
+						}
+					case *ast.BranchStmt:
+						if x.Tok == token.BREAK && x.Label == nil && k == len(is.Body.List)-1 {
+							leave = true
+						}
+					}
+				}
+				restartOK = bump && clear && leave
+			}
+			return true
+		})
+	}
+	if !scanFound {
 		// alternative shape: a scan that does not use goto is outside the pinned implementation
 		r.Undecided(clause, "R2 ORDER", f.Name+"/overlap-scan-restarts", c.pos(f.Decl.Pos()), "no labelled overlap scan testing the occupancy vector (rule is pinned to the goto-restart implementation)")
 	} else {
@@ -1670,7 +1728,7 @@ func c05d(c *Ctx, r *Report) {
 				return true
 			}
 			if fv := fieldVar(binfo, as.Lhs[0]); fv != nil && fv.Name() == "NeedPacked" {
-				pc := &pathCtx{info: binfo}
+				pc := pathCtxFor(b)
 				p := pc.path(as.Rhs[0])
 				if strings.Contains(p, ".NeedPacked") && strings.Contains(p, "Utils.PackFlags") && strings.Contains(p, "&&") {
 					ok = true
